@@ -121,7 +121,10 @@ def fn_case(cid, rng, mode):
             body.insert(rng.randint(0, len(body)), "    %s%s%s pub fn gone<D>(deps: &D, x: i32) -> i32 { this_does_not_exist(x) }" % (pre, gate, post))
             cfg_gone.append("gone")
         if rng.random() < 0.7 and not any(f.type_params or f.const_params for f in b.fns):
-            body.insert(rng.randint(0, len(body)), "    #[cfg(all())] pub fn kept<D>(deps: &D, x: i32) -> i32 { ::vrt::enter(\"%s::kept\", ::vrt::tn(deps), ::vrt::addr(deps), &[&x as &dyn ::core::fmt::Debug]); x }" % cid)
+            # (an enabled gate: a plain cfg, or a cfg_attr whose predicate is false - its cfg(..) then never applies - or true with a true cfg)
+            kgate = rng.choice(["#[cfg(all())]", "#[cfg(all())]", "#[cfg_attr(any(), cfg(any()))]", "#[cfg_attr(false, cfg(false))]", "#[cfg_attr(all(), cfg(all()))]",
+                                "#[cfg_attr(feature = \"c18_lean\", cfg(feature = \"c18_diag\"))]"])
+            body.insert(rng.randint(0, len(body)), "    %s pub fn kept<D>(deps: &D, x: i32) -> i32 { ::vrt::enter(\"%s::kept\", ::vrt::tn(deps), ::vrt::addr(deps), &[&x as &dyn ::core::fmt::Debug]); x }" % (kgate, cid))
             cfg_kept.append("kept")
         b.lines = head + modhead + body + ["}"]
     c = b.case()
